@@ -141,6 +141,49 @@ func c06Nested(r *run.Run, maxLen, bound int) {
 	}
 }
 
+// c06NestedFlags: the full product of parent flags x child flags (incl. equal flag words with
+// different mark filtering sets, and filtering set + attachment type), which the deviation-bounded
+// lists above only touch one flag at a time.
+func c06NestedFlags(r *run.Run, maxLen int) {
+	alphabet := []glyph.ID{gen.GA, gen.GB, gen.GM, gen.GN, gen.GL}
+	children := map[bool][]int{false: {5, 1, 2, 7}, true: {0, 2, 4}}
+	pats := []int{0, 1, 5}
+	actionSets := []int{3, 4, 1}
+	r.Explore(explore.Config{Name: "C06.nested-flags", Deadline: r.PartDeadline(0.95)},
+		fmt.Sprintf("nested lists [context parent, child, second child]: ALL pairs of parent flags x child flags from the full 11-entry flag menu (ignore marks/ligatures/bases, both mark filtering sets, both attachment types, filtering set + attachment type) x parent form (6) x 3 patterns x 3 action lists x 4 GSUB / 3 GPOS children, GDEF with classes, attachment classes and two mark sets, on all glyph sequences of length <= %d over {A,B,M,N,L}", maxLen),
+		func(c *explore.Ctx) {
+			gpos := c.Bool("gpos")
+			menu, ctxType, chainType := gen.GsubSimple, uint16(5), uint16(6)
+			if gpos {
+				menu, ctxType, chainType = gen.GposSimple, 7, 8
+			}
+			form := c.Choose(6, "parent form")
+			pf := gen.Flags[c.Choose(len(gen.Flags), "parent flags")]
+			cf := gen.Flags[c.Choose(len(gen.Flags), "child flags")]
+			child := menu[children[gpos][c.Choose(len(children[gpos]), "child")]]
+			pat := gen.Patterns[pats[c.Choose(len(pats), "pattern")]]
+			acts := gen.ActionSets[actionSets[c.Choose(len(actionSets), "actions")]]
+			var actions []gtab.SeqLookup
+			for _, a := range acts {
+				actions = append(actions, gtab.SeqLookup{SequenceIndex: uint16(a[0]), LookupListIndex: gtab.LookupIndex(1 + a[1])})
+			}
+			t := ctxType
+			if form >= 3 {
+				t = chainType
+			}
+			other := menu[1]
+			ll := gtab.LookupList{
+				gen.MakeLookup(t, pf, []gtab.Subtable{gen.Context(form, pat, actions)}),
+				gen.MakeLookup(child.Type, cf, child.Sub()),
+				gen.MakeLookup(other.Type, cf, other.Sub()),
+			}
+			gd, _ := gen.Gdef(0)
+			desc := []string{fmt.Sprintf("0: %s %s [%s] actions %v", gen.ContextForms[form], pf.Name, pat.Name, acts), "1: " + child.Name + " " + cf.Name, "2: " + other.Name + " " + cf.Name, "gdef: classes+attach+marksets"}
+			c.Sample(func() any { return desc })
+			compareShaping(c, ll, gd, []gtab.LookupIndex{0}, gpos, alphabet, maxLen, "nested flags: "+gen.ContextForms[form]+" / "+child.Name, desc)
+		})
+}
+
 func init() {
 	Register("C06", func(r *run.Run) {
 		r.Rule = "lookup lists from the shared generator x ALL input sequences up to a length bound; library result compared with the token-list reference shaper; cases the specification + testcases sections 1-3 do not define are counted, not compared; non-trivial = lookup lists for which at least one compared sequence had a matching rule"
@@ -159,6 +202,7 @@ func init() {
 		}
 		c06Simple(r, maxLen-1)
 		c06Nested(r, maxLen, bound)
+		c06NestedFlags(r, maxLen-1)
 		r.MinNontrivial = 100
 	})
 }
